@@ -458,21 +458,32 @@ def returns_none(x):
     return None
 
 
+def raises_unless_short(x):
+    # a validator fails a Check by returning False OR by raising
+    if not is_short(x):
+        raise ValueError('too long: %r' % (x,))
+    return True
+
+
+COMPUTED_DEFAULT = Val(('computed', 'default'))
+
+
 def _in(t, choices):
     """the `in` of the reference: == against each choice (never hashing)"""
     return any(t is c or t == c for c in choices)
 
 
 def check_cases(col):
-    targets = [1, 0, 2, -1, 'a', '', 'ab', 1.0, True, None, (1,), 2.5, [1], {'a': 1}, [], {1, 2}]
+    targets = [1, 0, -1, 'a', '', 'ab', 1.0, True, None, (1,), [1], {'a': 1}, []]
     types = [None, int, str, (int, str), bool]
     insts = [None, int, (int, float), str, object]
     vals = [None, ('equal_to', 1), ('equal_to', 'a'), ('one_of', (1, 2)), ('one_of', ['a', 'ab']), ('equal_to', None),
             ('equal_to', [1]), ('one_of', ([1], {'a': 1}))]
     # (falsy_unless_false / returns_none: a validator fails the Check by returning False or by raising - a result that is merely
     # falsy, like the None of an assertion-style validator, the 0 of validate=int or an empty string, passes)
-    validators = [None, pos, [pos, is_short], is_short, falsy_unless_false, [returns_none, pos]]
-    defaults = [None, SENT]
+    validators = [None, pos, [pos, is_short], is_short, falsy_unless_false, [returns_none, pos], raises_unless_short]
+    # (a default is handed out the same way whichever condition failed: evaluated in argument position - Val(x) gives x)
+    defaults = [None, SENT, COMPUTED_DEFAULT]
     specs = [None, T['x']]
     n = 0
     for ty, inst, val, vd, dflt, sp in itertools.product(types, insts, vals, validators, defaults, specs):
@@ -509,13 +520,18 @@ def check_cases(col):
             if not conds:
                 vlist = [bool]   # a bare Check is a truthiness check
             for v in vlist:
-                ok = ok and (v(t) is not False)
+                res = call(v, t)
+                ok = ok and res.ok and (res.value is not False)
             got = call(G, target, chk)
             col.count('check_evaluations')
             wit = {'check': short(chk), 'target': short(target)}
             if ok:
                 if not got.ok or got.value is not target:
                     col.violation('C10/check-rejects-valid', '%s on %r: all conditions hold, got %r' % (short(chk), target, got), wit)
+            elif dflt is COMPUTED_DEFAULT:
+                if not got.ok or got.value != ('computed', 'default'):
+                    col.violation('C10/check-default-not-returned:computed-default', '%s on %r: a condition fails, expected the value of the default, got %r'
+                                  % (short(chk), target, got), wit)
             elif dflt is not None:
                 if not got.ok or got.value is not dflt:
                     col.violation('C10/check-default-not-returned', '%s on %r: a condition fails, expected the default, got %r'
